@@ -64,7 +64,9 @@ context of another thread, main or not, whenever it was entered); a thread that 
 handlers the named parent had at the step inherit committed; plus the Lean model (drv_runtime sched) on the committed
 steps of all threads, thread 0 included ("<t> S <u>" is no model step and is left out).  Exploration: reservoirs per
 number of preemptions as in (a-lib); (b) concurrent Overloaded.register / Dataset.register; (c) concurrent
-evaluations of one cached dataset with different / equal options; (d) the same for cached datasets
+evaluations of one cached dataset with different / equal options, also (c3, c4) with one more scheduled thread
+that empties the backend in one atomic step (a backend that loses entries; model: CEv.evict, theorem
+cache_own_value_evicting); (d) the same for cached datasets
 whose dependency graph contains a USER-BUILT node, defined outside dataset.py / cache.py and hence one
 object shared by every thread: WithOptions / WithDefaultOptions (around an option, a section, a cached
 dataset, as an argument of another expression), Switch, case, Coalesce, Template, Map, Iter, the
@@ -922,7 +924,17 @@ def exec_cache(scn, serial, preempts, gran):
             except Exception as e:
                 results[str(i)] = "E:" + type(e).__name__
         return f
-    s, ths = run_threads(n, preempts, gran, [body(i) for i in range(n)])
+    bodies = [body(i) for i in range(n)]
+    if scn.get("evictions"):
+        # one more scheduled thread plays a backend that loses its entries (bounded / expiring / shared): each round
+        # is one atomic step that empties the dict, logged as "e<fp>" for every fingerprint (model: CEv.evict)
+        def evictor(s, me):
+            for _ in range(scn["evictions"]):
+                s.yield_point(me)
+                dict.clear(cache._cache)
+                ops.extend("e%d" % a for a in sorted(set(opts)))
+        bodies.append(evictor)
+    s, ths = run_threads(len(bodies), preempts, gran, bodies)
     go(s, ths)
     for th in ths:
         RT._RUNTIMES.pop(th, None)
@@ -1710,6 +1722,10 @@ def scenarios(rng: random.Random, thorough: bool) -> List[Tuple[str, Dict[str, A
          {"kind": "cache", "threads": [1, 2]}),
         ("c2 three evaluations, two with equal options",
          {"kind": "cache", "threads": [1, 2, 1]}),
+        ("c3 two evaluations with equal options while the backend loses its entries once",
+         {"kind": "cache", "threads": [1, 1], "evictions": 1}),
+        ("c4 two evaluations with different options while the backend loses its entries twice",
+         {"kind": "cache", "threads": [1, 2], "evictions": 2}),
     ]
     # random handler-context scenarios
     for r in range(5 if thorough else 1):
